@@ -58,16 +58,76 @@ Section Rnd.
   Lemma rnd_rel x : 0 <= x -> (1 - eps) * x <= rnd x <= (1 + eps) * x.
   Proof. intros Hx. pose proof (Hrnd x) as H. rewrite (Rabs_pos_eq x Hx) in H. apply Rabs_le_inv in H. lra. Qed.
 
+  Hypothesis Hsmall : eps <= 1 / 2.
+
+  Lemma fsum_nonneg m a : (forall k, 0 <= a k) -> 0 <= fsum m a.
+  Proof.
+    intros Ha. induction m as [|m IH]; [simpl; lra|]. cbn [fsum].
+    assert (Z : 0 <= fsum m a + a m) by (pose proof (Ha m); lra).
+    pose proof (rnd_rel _ Z) as [L _]. assert (0 <= (1 - eps) * (fsum m a + a m)) by (apply Rmult_le_pos; lra). lra.
+  Qed.
+
+  (* any summation order: a binary tree over the terms (unrolled / pairwise / blocked accumulations are such trees) *)
+  Inductive stree : Type := Leaf (k : nat) | Node (l r : stree).
+  Fixpoint teval (t : stree) (a : nat -> R) : R :=
+    match t with Leaf k => a k | Node l r => teval l a + teval r a end.
+  Fixpoint tfl (t : stree) (a : nat -> R) : R :=
+    match t with Leaf k => a k | Node l r => rnd (tfl l a + tfl r a) end.
+  Fixpoint theight (t : stree) : nat :=
+    match t with Leaf _ => O | Node l r => S (Nat.max (theight l) (theight r)) end.
+
+  Lemma teval_abs t a : Rabs (teval t a) <= teval t (fun k => Rabs (a k)).
+  Proof. induction t as [k|l IHl r IHr]; cbn [teval]; [lra|]. eapply Rle_trans; [apply Rabs_triang|lra]. Qed.
+
+  Lemma teval_abs_nonneg t a : 0 <= teval t (fun k => Rabs (a k)).
+  Proof. induction t as [k|l IHl r IHr]; cbn [teval]; [apply Rabs_pos|lra]. Qed.
+
+  Lemma tfl_err t a : Rabs (tfl t a - teval t a) <= (U (theight t) - 1) * teval t (fun k => Rabs (a k)).
+  Proof.
+    induction t as [k|l IHl r IHr].
+    - cbn [tfl teval theight]. unfold U. rewrite Rminus_diag_eq by reflexivity. rewrite Rabs_R0. simpl. lra.
+    - cbn [tfl teval theight]. set (h := Nat.max (theight l) (theight r)).
+      set (sl := tfl l a) in *. set (sr := tfl r a) in *. set (Sl := teval l a) in *. set (Sr := teval r a) in *.
+      set (Al := teval l (fun k => Rabs (a k))) in *. set (Ar := teval r (fun k => Rabs (a k))) in *.
+      pose proof (teval_abs_nonneg l a) as HAl. pose proof (teval_abs_nonneg r a) as HAr. fold Al in HAl. fold Ar in HAr.
+      pose proof (U_ge1 h) as HU.
+      assert (El : Rabs (sl - Sl) <= (U h - 1) * Al).
+      { eapply Rle_trans; [exact IHl|]. apply Rmult_le_compat_r; [exact HAl|]. pose proof (U_mono (theight l) h (Nat.le_max_l _ _)). lra. }
+      assert (Er : Rabs (sr - Sr) <= (U h - 1) * Ar).
+      { eapply Rle_trans; [exact IHr|]. apply Rmult_le_compat_r; [exact HAr|]. pose proof (U_mono (theight r) h (Nat.le_max_r _ _)). lra. }
+      pose proof (teval_abs l a) as Bl. pose proof (teval_abs r a) as Br. fold Sl Al in Bl. fold Sr Ar in Br.
+      pose proof (Hrnd (sl + sr)) as H1.
+      assert (H2 : Rabs (sl + sr) <= U h * (Al + Ar)).
+      { replace (sl + sr) with ((sl - Sl) + (sr - Sr) + (Sl + Sr)) by ring.
+        eapply Rle_trans; [apply Rabs_triang|]. eapply Rle_trans; [apply Rplus_le_compat_r; apply Rabs_triang|].
+        pose proof (Rabs_triang Sl Sr). lra. }
+      replace (rnd (sl + sr) - (Sl + Sr)) with ((rnd (sl + sr) - (sl + sr)) + ((sl - Sl) + (sr - Sr))) by ring.
+      eapply Rle_trans; [apply Rabs_triang|]. pose proof (Rabs_triang (sl - Sl) (sr - Sr)).
+      assert (H3 : eps * Rabs (sl + sr) <= eps * (U h * (Al + Ar))) by (apply Rmult_le_compat_l; assumption).
+      rewrite U_S. lra.
+  Qed.
+
+  Lemma tfl_nonneg t a : (forall k, 0 <= a k) -> 0 <= tfl t a.
+  Proof.
+    intros Ha. induction t as [k|l IHl r IHr]; cbn [tfl]; [apply Ha|].
+    assert (Z : 0 <= tfl l a + tfl r a) by lra. pose proof (rnd_rel _ Z) as [L _].
+    assert (0 <= (1 - eps) * (tfl l a + tfl r a)) by (apply Rmult_le_pos; lra). lra.
+  Qed.
+
   Lemma low_step n : 2 - U (S n) <= (1 - eps) * (2 - U n).
   Proof. rewrite U_S. pose proof (U_ge1 n). nra. Qed.
 
   (* ---- the computation after the SVD *)
   Variables (n : nat) (sv : nat -> R).
   Hypothesis Hsv : forall k, 0 <= sv k.
+  (* the rounded summation scheme used for the two power sums: anything with the relative accuracy of n rounded additions *)
+  Variable sumf : (nat -> R) -> R.
+  Hypothesis Hsum_rel : forall a, (forall k, 0 <= a k) -> (2 - U n) * rsum n a <= sumf a <= U n * rsum n a.
+  Hypothesis Hsum_nonneg : forall a, (forall k, 0 <= a k) -> 0 <= sumf a.
   Definition t2 (k : nat) : R := rnd (sv k * sv k).
   Definition t4 (k : nat) : R := rnd (t2 k * t2 k).
-  Definition Nhat : R := fsum n t2.
-  Definition Dhat : R := fsum n t4.
+  Definition Nhat : R := sumf t2.
+  Definition Dhat : R := sumf t4.
   Definition Khat : R := rnd (rnd (Nhat * Nhat) / Dhat).
   Let N := sv_norm_squared n sv.
   Let D := sv_kinv n sv.
@@ -75,7 +135,6 @@ Section Rnd.
   Lemma t2_rel k : (1 - eps) * (sv k * sv k) <= t2 k <= (1 + eps) * (sv k * sv k).
   Proof. apply rnd_rel. apply Rmult_le_pos; apply Hsv. Qed.
 
-  Hypothesis Hsmall : eps <= 1 / 2.
 
   Lemma t2_nonneg k : 0 <= t2 k.
   Proof. pose proof (t2_rel k). pose proof (Hsv k). assert (0 <= sv k * sv k) by nra. nra. Qed.
@@ -103,7 +162,7 @@ Section Rnd.
 
   Theorem Nhat_rel : (1 - g) * N <= Nhat <= (1 + g) * N.
   Proof.
-    pose proof (fsum_rel n t2 t2_nonneg) as [L Hh]. fold Nhat in L, Hh.
+    pose proof (Hsum_rel t2 t2_nonneg) as [L Hh]. fold Nhat in L, Hh.
     assert (S1 : (1 - eps) * N <= rsum n t2 <= (1 + eps) * N).
     { unfold N, sv_norm_squared. rewrite <- !rsum_scal_l. split; apply rsum_le; intros; apply t2_rel. }
     pose proof N_nonneg as HN. pose proof (U_ge1 n) as HU.
@@ -118,11 +177,7 @@ Section Rnd.
       + assert (Hneg : 2 - U (n + 3) <= 0).
         { apply Rnot_le_lt in Hn. assert (0 <= 1 - eps) by lra.
           assert ((1 - eps) * (2 - U n) <= 0) by (replace 0 with ((1 - eps) * 0) by ring; apply Rmult_le_compat_l; lra). lra. }
-        assert (Hpos : 0 <= Nhat).
-        { unfold Nhat. clear -Hrnd Hsv Hsmall Heps. induction n as [|m IH]; [simpl; lra|]. cbn [fsum].
-          pose proof (t2_nonneg m) as T. assert (Z : 0 <= fsum m t2 + t2 m) by lra.
-          pose proof (rnd_rel (fsum m t2 + t2 m) Z) as [L _].
-          assert (0 <= (1 - eps) * (fsum m t2 + t2 m)) by (apply Rmult_le_pos; lra). lra. }
+        pose proof (Hsum_nonneg t2 t2_nonneg) as Hpos. fold Nhat in Hpos.
         assert ((2 - U (n + 3)) * N <= 0) by (replace 0 with (0 * N) by ring; apply Rmult_le_compat_r; assumption).
         lra.
     - assert (A3 : U n * rsum n t2 <= U n * ((1 + eps) * N)) by (apply Rmult_le_compat_l; [lra|apply S1]).
@@ -136,16 +191,10 @@ Section Rnd.
     assert (0 <= (1 - eps) * (t2 k * t2 k)) by (apply Rmult_le_pos; [lra|apply Rmult_le_pos; assumption]). lra.
   Qed.
 
-  Lemma fsum_nonneg m a : (forall k, 0 <= a k) -> 0 <= fsum m a.
-  Proof.
-    intros Ha. induction m as [|m IH]; [simpl; lra|]. cbn [fsum].
-    assert (Z : 0 <= fsum m a + a m) by (pose proof (Ha m); lra).
-    pose proof (rnd_rel _ Z) as [L _]. assert (0 <= (1 - eps) * (fsum m a + a m)) by (apply Rmult_le_pos; lra). lra.
-  Qed.
 
   Theorem Dhat_rel : (1 - g) * D <= Dhat <= (1 + g) * D.
   Proof.
-    pose proof (fsum_rel n t4 t4_nonneg) as [L Hh]. fold Dhat in L, Hh.
+    pose proof (Hsum_rel t4 t4_nonneg) as [L Hh]. fold Dhat in L, Hh.
     assert (S1 : (1 - eps) ^ 3 * D <= rsum n t4 <= (1 + eps) ^ 3 * D).
     { unfold D, sv_kinv. rewrite <- !rsum_scal_l. split; apply rsum_le; intros; apply t4_rel. }
     pose proof D_nonneg as HD. pose proof (U_ge1 n) as HU.
@@ -166,7 +215,7 @@ Section Rnd.
       + assert (Hneg : 2 - U (n + 3) <= 0).
         { apply Rnot_le_lt in Hn.
           assert ((1 - eps) ^ 3 * (2 - U n) <= 0) by (replace 0 with ((1 - eps) ^ 3 * 0) by ring; apply Rmult_le_compat_l; lra). lra. }
-        pose proof (fsum_nonneg n t4 t4_nonneg) as Hpos. fold Dhat in Hpos.
+        pose proof (Hsum_nonneg t4 t4_nonneg) as Hpos. fold Dhat in Hpos.
         assert ((2 - U (n + 3)) * D <= 0) by (replace 0 with (0 * D) by ring; apply Rmult_le_compat_r; assumption).
         lra.
     - assert (A3 : U n * rsum n t4 <= U n * ((1 + eps) ^ 3 * D)) by (apply Rmult_le_compat_l; [lra|apply S1]).
@@ -190,7 +239,7 @@ Section Rnd.
     intros HD Hg.
     assert (Hg0 : 0 <= g) by (unfold g; pose proof (U_ge1 (n + 3)); lra).
     pose proof Nhat_rel as [NL NU]. pose proof Dhat_rel as [DL DU]. pose proof N_nonneg as HN.
-    assert (Nh0 : 0 <= Nhat) by (apply fsum_nonneg; apply t2_nonneg).
+    assert (Nh0 : 0 <= Nhat) by (apply Hsum_nonneg; apply t2_nonneg).
     assert (Dh0 : 0 < Dhat) by (assert (0 < (1 - g) * D) by (apply Rmult_lt_0_compat; lra); lra).
     assert (Sq : ((1 - g) * N) * ((1 - g) * N) <= Nhat * Nhat <= ((1 + g) * N) * ((1 + g) * N)).
     { assert (0 <= (1 - g) * N) by (apply Rmult_le_pos; lra). split; apply Rmult_le_compat; lra. }
@@ -229,13 +278,16 @@ Proof. apply relative_error_N_FLX. lia. Qed.
 Lemma b64_eps_val : b64_eps = / 9007199254740992.
 Proof. unfold b64_eps. simpl bpow. unfold Z.pow_pos; simpl. field. Qed.
 
-(* for sides up to 40 the post-SVD arithmetic changes K by less than 1e-13 relative *)
-Theorem schmidt_rounding_b64 choice n sv :
+(* for sides up to 40 the post-SVD arithmetic changes K by less than 1e-13 relative, for any summation scheme with the accuracy
+   of n rounded additions *)
+Theorem schmidt_rounding_b64_gen choice n sv (sumf : (nat -> R) -> R) :
   (n <= 40)%nat -> (forall k, 0 <= sv k) -> 0 < sv_kinv n sv ->
+  (forall a, (forall k, 0 <= a k) -> (2 - U b64_eps n) * rsum n a <= sumf a <= U b64_eps n * rsum n a) ->
+  (forall a, (forall k, 0 <= a k) -> 0 <= sumf a) ->
   let K := sv_norm_squared n sv * sv_norm_squared n sv / sv_kinv n sv in
-  Rabs (Khat (b64_rnd choice) n sv - K) <= 1e-13 * K.
+  Rabs (Khat (b64_rnd choice) sv sumf - K) <= 1e-13 * K.
 Proof.
-  intros Hn Hsv HD K.
+  intros Hn Hsv HD Hrel Hnn K.
   assert (He : 0 <= b64_eps) by (rewrite b64_eps_val; lra).
   assert (Hs : b64_eps <= 1 / 2) by (rewrite b64_eps_val; lra).
   assert (Hg1 : g b64_eps n <= g b64_eps 40).
@@ -243,7 +295,7 @@ Proof.
   assert (Hg0 : 0 <= g b64_eps n) by (unfold g; pose proof (U_ge1 b64_eps He (n + 3)); lra).
   assert (Hg40 : g b64_eps 40 <= 5e-15).
   { unfold g, U. rewrite b64_eps_val. interval with (i_prec 120). }
-  pose proof (Khat_rel (b64_rnd choice) b64_eps He (b64_rnd_rel choice) n sv Hsv Hs HD ltac:(lra)) as [L Hh].
+  pose proof (Khat_rel (b64_rnd choice) b64_eps He (b64_rnd_rel choice) Hs n sv Hsv sumf Hrel Hnn HD ltac:(lra)) as [L Hh].
   fold K in L, Hh.
   assert (K0 : 0 <= K).
   { unfold K. apply Rmult_le_pos; [|left; apply Rinv_0_lt_compat; exact HD].
@@ -257,4 +309,51 @@ Proof.
   apply Rabs_le. split.
   - assert (K * (1 - 1e-13) <= K * ((1 - gg) * (1 - gg) * ((1 - b64_eps) * (1 - b64_eps)) / (1 + gg))) by (apply Rmult_le_compat_l; assumption). lra.
   - assert (K * ((1 + gg) * (1 + gg) * ((1 + b64_eps) * (1 + b64_eps)) / (1 - gg)) <= K * (1 + 1e-13)) by (apply Rmult_le_compat_l; assumption). lra.
+Qed.
+
+Lemma b64_eps_nonneg : 0 <= b64_eps.
+Proof. rewrite b64_eps_val. lra. Qed.
+Lemma b64_eps_small : b64_eps <= 1 / 2.
+Proof. rewrite b64_eps_val. lra. Qed.
+
+(* left-to-right accumulation *)
+Theorem schmidt_rounding_b64 choice n sv :
+  (n <= 40)%nat -> (forall k, 0 <= sv k) -> 0 < sv_kinv n sv ->
+  let K := sv_norm_squared n sv * sv_norm_squared n sv / sv_kinv n sv in
+  Rabs (Khat (b64_rnd choice) sv (fsum (b64_rnd choice) n) - K) <= 1e-13 * K.
+Proof.
+  intros Hn Hsv HD. apply schmidt_rounding_b64_gen; try assumption.
+  - intros a Ha. apply (fsum_rel (b64_rnd choice) b64_eps b64_eps_nonneg (b64_rnd_rel choice) n a Ha).
+  - intros a Ha. eapply fsum_nonneg; first [apply b64_rnd_rel | apply b64_eps_small | apply b64_eps_nonneg | exact Ha].
+Qed.
+
+(* ANY summation order: every binary tree over the n terms (nalgebra's unrolled dot products, pairwise or blocked sums) *)
+Theorem schmidt_rounding_b64_any_order choice n sv (t : stree) :
+  (n <= 40)%nat -> (forall k, 0 <= sv k) -> 0 < sv_kinv n sv ->
+  (forall a, teval t a = rsum n a) -> (theight t <= n)%nat ->
+  let K := sv_norm_squared n sv * sv_norm_squared n sv / sv_kinv n sv in
+  Rabs (Khat (b64_rnd choice) sv (tfl (b64_rnd choice) t) - K) <= 1e-13 * K.
+Proof.
+  intros Hn Hsv HD Ht Hh. apply schmidt_rounding_b64_gen; try assumption.
+  - intros a Ha. pose proof (tfl_err (b64_rnd choice) b64_eps b64_eps_nonneg (b64_rnd_rel choice) t a) as E.
+    rewrite Ht in E. rewrite (Ht (fun k => Rabs (a k))) in E.
+    rewrite (rsum_ext n (fun k => Rabs (a k)) a) in E by (intros; apply Rabs_pos_eq; apply Ha).
+    apply Rabs_le_inv in E.
+    assert (R0 : 0 <= rsum n a) by (apply rsum_nonneg; intros; apply Ha).
+    pose proof (U_mono b64_eps b64_eps_nonneg (theight t) n Hh) as M.
+    assert ((U b64_eps (theight t) - 1) * rsum n a <= (U b64_eps n - 1) * rsum n a) by (apply Rmult_le_compat_r; lra).
+    lra.
+  - intros a Ha. eapply tfl_nonneg; first [apply b64_rnd_rel | apply b64_eps_small | apply b64_eps_nonneg | exact Ha].
+Qed.
+
+(* non-vacuity: three singular values, the balanced tree ((0 1) 2) *)
+Example rounding_example_tree :
+  let t := Node (Node (Leaf 0) (Leaf 1)) (Leaf 2) in
+  (forall a, teval t a = rsum 3 a) /\ (theight t <= 3)%nat /\ (forall k : nat, 0 <= (fun _ => 1) k) /\ 0 < sv_kinv 3 (fun _ => 1).
+Proof.
+  cbv zeta. repeat split.
+  - intros a. unfold rsum. cbn. ring.
+  - cbn. lia.
+  - intros; lra.
+  - unfold sv_kinv, rsum. cbn. lra.
 Qed.
